@@ -112,6 +112,9 @@ fn run(ctx: &mut Ctx) {
     );
     flips(ctx, &arena);
     huge(ctx);
+    let body_arena = Arena::new(20);
+    bodies(ctx, &body_arena);
+    addresses(ctx);
     for total in 0..=max_total {
         let span = round8(total).max(8);
         let p = unsafe { arena.end().sub(span) };
@@ -174,6 +177,110 @@ fn huge(ctx: &mut Ctx) {
                     observe(ctx, p, expected, total);
                     ctx.state_direct();
                     ctx.nontrivial();
+                });
+            }
+        }
+    }
+}
+
+/// Well-formed tag sequences as the body: the verdict only depends on the size word and the last 8 bytes, whatever the
+/// tags in between are (further end tags included).
+fn bodies(ctx: &mut Ctx, arena: &Arena) {
+    let maxlen = if ctx.quick() { 4 } else { 5 };
+    ctx.bound("bodies", format!("regions whose body is every sequence of up to {} tags over {{end tag (0,8), string tag (1,13), custom (0x1337,8), module (3,17), custom with size 0}} followed by {{an end tag, a non-end tag, nothing}}; plus 64 KiB regions with an end tag in the middle", maxlen));
+    let alpha: [(u32, u32); 5] = [(0, 8), (1, 13), (0x1337, 8), (3, 17), (0x1337, 0)];
+    let mut regions: Vec<Vec<u8>> = vec![];
+    for len in 0..=maxlen {
+        for code in 0..5usize.pow(len as u32) {
+            for tail in 0..3 {
+                let mut r = vec![0u8; 8];
+                for i in 0..len {
+                    let (t, sz) = alpha[(code / 5usize.pow(i as u32)) % 5];
+                    let o = r.len();
+                    r.resize(o + round8(sz as usize).max(8), 0x61);
+                    wr32(&mut r, o, t);
+                    wr32(&mut r, o + 4, sz);
+                }
+                match tail {
+                    0 => r.extend_from_slice(&[0, 0, 0, 0, 8, 0, 0, 0]),
+                    1 => r.extend_from_slice(&[1, 0, 0, 0, 8, 0, 0, 0]),
+                    _ => {}
+                }
+                let n = r.len() as u32;
+                wr32(&mut r, 0, n);
+                regions.push(r);
+            }
+        }
+    }
+    for mid in [8usize, 32008, 65520] {
+        let mut r = vec![0x61u8; 65536];
+        wr32(&mut r, 0, 65536);
+        wr32(&mut r, 4, 0);
+        // [custom up to mid][end tag][custom up to the tail][end tag]
+        if mid > 8 {
+            wr32(&mut r, 8, 0x1337);
+            wr32(&mut r, 12, (mid - 8) as u32);
+        }
+        wr32(&mut r, mid, 0);
+        wr32(&mut r, mid + 4, 8);
+        if mid + 8 < 65528 {
+            wr32(&mut r, mid + 8, 0x1337);
+            wr32(&mut r, mid + 12, (65528 - mid - 8) as u32);
+        }
+        wr32(&mut r, 65528, 0);
+        wr32(&mut r, 65532, 8);
+        regions.push(r);
+    }
+    for r in regions {
+        let total = r.len();
+        let describe = || J::obj().set("part", "bodies").set("total_size_word", total).set("region", J::hex(&r[..total.min(96)]));
+        ctx.leaf(describe, |ctx| {
+            arena.fill(0xB7);
+            let p = arena.place_right(&r);
+            let expected = load_verdict(&r, total);
+            observe(ctx, p, expected, total);
+            ctx.state_direct();
+            ctx.nontrivial();
+        });
+    }
+}
+
+/// The region's address is an input too: regions that end exactly at, start exactly at, or straddle a multiple of
+/// 4 GiB (and 2^47 - 64 KiB is left alone: not mappable everywhere).
+fn addresses(ctx: &mut Ctx) {
+    ctx.bound("addresses", "regions of 16, 24, 32 and 4096 bytes (valid and invalid end tag) that end exactly at 8 GiB, start exactly at 12 GiB, or straddle 12 GiB by 8 / 16 bytes; the verdict and the reported addresses must not depend on where the region lies");
+    const B1: usize = 2 << 32;
+    const B2: usize = 3 << 32;
+    let a1 = Arena::new_ending_at(2, B1);
+    let a2 = Arena::new_ending_at(4, B2 + 2 * arena::PAGE);
+    for total in [16usize, 24, 32, 4096] {
+        for valid_end in [true, false] {
+            for place in 0..4 {
+                let describe = || J::obj().set("part", "addresses").set("total_size_word", total).set("valid_end_tag", valid_end).set("placement", ["ends at 8 GiB", "starts at 12 GiB", "straddles 12 GiB by 8 bytes", "straddles 12 GiB by 16 bytes"][place]);
+                ctx.leaf(describe, |ctx| {
+                    ctx.state_direct();
+                    let mut r = vec![0x61u8; total];
+                    wr32(&mut r, 0, total as u32);
+                    wr32(&mut r, 4, 0);
+                    wr32(&mut r, total - 8, 0);
+                    wr32(&mut r, total - 4, if valid_end { 8 } else { 9 });
+                    let p = match place {
+                        0 => a1.as_ref().map(|a| { a.fill(0xB7); a.place_right(&r) }),
+                        _ => a2.as_ref().map(|a| {
+                            a.fill(0xB7);
+                            let boundary = B2 - a.base() as usize;
+                            let off = match place { 1 => boundary, 2 => boundary - (total - 8), _ => boundary - (total - 16).min(boundary) };
+                            a.place_at(off, &r)
+                        }),
+                    };
+                    match p {
+                        None => ctx.class("address:range-not-available"),
+                        Some(p) => {
+                            ctx.nontrivial();
+                            ctx.class("address:placed");
+                            observe(ctx, p, load_verdict(&r, total), total);
+                        }
+                    }
                 });
             }
         }
